@@ -185,7 +185,18 @@ func CoqSys(c SysCase, obs []SysObs) string {
 		}
 		os_ = append(os_, emit.Tuple(emit.Tuple(emit.B(obs[k].Changed), emit.B(obs[k].Err), emit.B(obs[k].Panicked)), emit.List(per)))
 	}
-	return fmt.Sprintf("CSys %d %s %s", c.ID, emit.List(ops), emit.List(os_))
+	probe := "None"
+	if n := len(obs); n > 0 && obs[n-1].Probed {
+		switch {
+		case !obs[n-1].ProbeBlocked:
+			probe = "(Some None)"
+		case obs[n-1].ProbeBy != nil:
+			probe = "(Some (Some " + emit.Z(tagOf(obs[n-1].ProbeBy.ID)) + "))"
+		default:
+			probe = "(Some (Some (-99)))"
+		}
+	}
+	return fmt.Sprintf("CSys %d %s %s %s", c.ID, emit.List(ops), emit.List(os_), probe)
 }
 
 func sysValid(t *system.Rule) bool {
